@@ -67,6 +67,17 @@ func Goid() int64 {
 	return id
 }
 
+// Known reports whether the calling goroutine is already a registered thread.
+// Goroutines that never reached a hooked acquire (e.g. the harness's helper
+// goroutines releasing a lock taken in pass-through mode) are not parked on release.
+func (s *Sched) Known() bool {
+	g := Goid()
+	s.mu.Lock()
+	defer s.mu.Unlock()
+	_, ok := s.byGid[g]
+	return ok
+}
+
 // IsSched reports whether the caller is the scheduler goroutine (exempt from parking).
 func (s *Sched) IsSched() bool { return Goid() == s.schedG }
 func (s *Sched) Mu() *sync.Mutex { return &s.mu }
